@@ -28,3 +28,34 @@ Proof. repeat split; reflexivity. Qed.
 Example C12_ex_unique : u_values (ndx_unique [3; 1; 3; 2]%Z) = [1; 2; 3]%Z /\ u_indices (ndx_unique [3; 1; 3; 2]%Z) = [1; 3; 0]
                         /\ u_inverse (ndx_unique [3; 1; 3; 2]%Z) = [2; 0; 2; 1] /\ u_counts (ndx_unique [3; 1; 3; 2]%Z) = [1; 1; 2].
 Proof. repeat split; reflexivity. Qed.
+
+(* unique_all, any length: values strictly ascending and exactly the elements of the input; every
+   value's index is its first occurrence; the inverse indices rebuild the input; counts positive *)
+From ND Require Import Ndx.UniqueFacts.
+Theorem C12_unique_values : forall l,
+  Sorted Z.lt (u_values (ndx_unique l)) /\ forall x, In x (u_values (ndx_unique l)) <-> In x l.
+Proof. exact unique_values_spec. Qed.
+Print Assumptions C12_unique_values.
+Theorem C12_unique_indices_are_first_occurrences : forall l, let u := ndx_unique l in
+  length (u_indices u) = length (u_values u) /\
+  forall k, (k < length (u_values u))%nat ->
+    let v := nth k (u_values u) 0%Z in let i := nth k (u_indices u) 0%nat in
+    (i < length l)%nat /\ nth i l 0%Z = v /\ forall j, (j < i)%nat -> nth j l 0%Z <> v.
+Proof. exact unique_indices_spec. Qed.
+Theorem C12_unique_inverse_rebuilds_the_input : forall l, let u := ndx_unique l in
+  map (fun i => nth i (u_values u) 0%Z) (u_inverse u) = l /\ Forall (fun i => (i < length (u_values u))%nat) (u_inverse u).
+Proof. exact unique_inverse_spec. Qed.
+Theorem C12_unique_counts_positive : forall l, Forall (fun c => (0 < c)%nat) (u_counts (ndx_unique l)).
+Proof. exact unique_counts_positive. Qed.
+
+(* searchsorted: the counting specification the implementation is compared with IS NumPy's insertion
+   point, for every sorted x1 and every v *)
+Theorem C12_searchsorted_left : forall x1 v, Sorted Z.le x1 ->
+  let i := searchsorted_spec false x1 v in
+  (forall j, (j < i)%nat -> (nth j x1 0 < v)%Z) /\ (forall j, (i <= j)%nat -> (j < length x1)%nat -> (v <= nth j x1 0)%Z).
+Proof. exact searchsorted_left_is_insertion_point. Qed.
+Theorem C12_searchsorted_right : forall x1 v, Sorted Z.le x1 ->
+  let i := searchsorted_spec true x1 v in
+  (forall j, (j < i)%nat -> (nth j x1 0 <= v)%Z) /\ (forall j, (i <= j)%nat -> (j < length x1)%nat -> (v < nth j x1 0)%Z).
+Proof. exact searchsorted_right_is_insertion_point. Qed.
+Print Assumptions C12_searchsorted_right.
